@@ -21,6 +21,10 @@ verus! {
 //@map BytesMut::with_capacity => bytesmut_with_capacity
 //@map SinkExt::flush => vx_sink_flush
 //@map futures::ready => ready
+//@map KeepAlive::new => vx_keepalive_new
+//@map KeepAlive => VKeepAlive
+//@map Vec::with_capacity => vx_vec_with_config_capacity
+//@map MutexGuard => ConnGuardOf
 //@mapcall reverse => &mut vx_vec_reverse
 
 //@type standard/src/errors.rs :: CryptoError
@@ -119,6 +123,10 @@ pub broadcast axiom fn bytes_len_bound(b: Bytes) ensures #[trigger] b@.len() <= 
     ensures true,
 //@end
 
+//@fn client/src/batching/message_batch.rs :: From<BatchConfig> for MessageBatch :: from [props=C03]
+    ensures r.batch@ == Seq::<Bytes>::empty(), r.config == config,                                                   // [C03.a_new_batch_is_empty]
+//@end
+
 // ------------------------------------------------------------------------------------------
 // Publisher
 // ------------------------------------------------------------------------------------------
@@ -162,6 +170,21 @@ impl<E, Item> Publisher<E, Item> {
         && (self.batch is Some ==> self.batch->Some_0.config == o.batch->Some_0.config)
     }
 }
+
+pub struct ClientConnection;
+// opening the stream (verified in unit client_connect); here: some stream, or an error
+//@fn client/src/streams/pubsub/publisher.rs :: Publisher :: open_stream [trusted] [props=C03] [where=]
+    ensures true,
+//@end
+// A publisher is born with nothing queued: neither a fresh one nor a duplicate inherits items another publisher has accepted
+// (each accepted item is delivered once).
+//@fn client/src/streams/pubsub/publisher.rs :: Publisher :: spawn [props=C03]
+    ensures r matches Ok(k) ==> (k.inner.batch is Some ==> k.inner.batch->Some_0.batch@ == Seq::<Bytes>::empty())      // [C03.a_new_publisher_has_nothing_queued]
+        && (k.inner.batch is Some) == (batch_config is Some) && k.inner.compression == compression && k.inner.encoder == encoder,
+//@end
+//@fn client/src/streams/pubsub/publisher.rs :: Publisher :: duplicate [props=C03]
+    ensures r matches Ok(k) ==> (k.inner.batch is Some ==> k.inner.batch->Some_0.batch@ == Seq::<Bytes>::empty()),     // [C03.a_duplicate_has_nothing_queued]
+//@end
 
 //@fn client/src/streams/pubsub/publisher.rs :: Publisher :: send_single [props=C03]
     ensures
